@@ -26,14 +26,15 @@ theorem consts_csv : bufmaxsize = 64 ∧ arraySize = 65 ∧ bufidxInit = 0 ∧ k
   decide
 theorem skel_read_ok : skel_read =
     ["if {call read_chunk}", "decl v", "decl bufend", "decl ptr = read_single",
-     "if {throw csv::read_row unexpected character '}", "if {call std::copy; bufidx -=} else {bufidx =}",
-     "return"] := by decide
+     "if {throw csv::read_row unexpected character '}", "if {throw csv::read_row number too long for buffer}",
+     "if {call std::copy; bufidx -=} else {bufidx =}", "return"] := by decide
 theorem skel_read_chunk_ok : skel_read_chunk =
     ["if {throw csv::read_row invalid stream:}", "if {return}", "if {throw csv::read_row extraction failed:}",
      "bufidx +=", "keep_reading ="] := by decide
 theorem skel_skip_comments_ok : skel_skip_comments =
     ["if {return}",
-     "while {call read_chunk; if {break}; while {bufidx =; call read_chunk}; bufidx =; call next_line}"] := by
+     "while {call read_chunk; if {break}; while {bufidx =; call read_chunk}; bufidx =; call next_line; " ++
+       "if {return}}"] := by
   decide
 theorem skel_read_single_ok : skel_read_single =
     ["if {++bufbegin}", "decl [ptr,ec] = std::from_chars", "decl bufvw",
@@ -81,33 +82,73 @@ theorem read_fields_tokens {V : Type} (P : List Char → Option (V × Nat)) (sep
       (.ok (tv.map (·.2)), ⟨[], 0, false⟩, ⟨tail, tail.isEmpty, tail.isEmpty⟩) :=
   readFields_tokens P sep tv tail ht hlen hok L j hj hL hd
 
-/-- **`read_row` on a valid row of any length** (no bound on the number of fields or on the line
-    length, hence every position of the 64-byte chunk boundaries): the values are `map parse toks`
-    and the stream is left at the start of the next line.
-
-    `_partial`: proved for a row that is not preceded by comment lines.  Full statement (with
-    `comments ++` in front of the line, each comment `'#' :: body ++ ['\n']`, any body length):
-    not proved — it needs one more induction over the chunks of a comment line; comment skipping is
-    covered by the correspondence run only.  The full statement is moreover *false* for the empty
-    row after a comment (finding `csv-empty-row-after-comment`). -/
-theorem read_row_tokens_partial {V : Type} (P : List Char → Option (V × Nat)) (sep : Char)
+/-- **`read_row` on a valid row of any length, after any number of comment lines** (no bound on the
+    number of fields, on the line length or on the comment lengths, hence every position of the
+    64-byte chunk boundaries): the values are `map parse toks` and the stream is left at the start
+    of the next line.  `cs` are the comment bodies (each line is `'#' :: body ++ ['\n']`). -/
+theorem read_row_tokens {V : Type} (P : List Char → Option (V × Nat)) (sep : Char)
+    (cs : List (List Char)) (hcs : ∀ b ∈ cs, NoNL b)
     (tv : List (List Char × V)) (tail : List Char) (ht : TailOK tail)
     (hlen : ∀ p ∈ tv, p.1.length ≤ 63) (hok : ∀ p ∈ tv, TokOK P sep p.1 p.2)
     (hNL : NoNL (lineOf sep (tv.map (·.1))))
     (c : Char) (l : List Char) (hline : lineOf sep (tv.map (·.1)) = c :: l) (hc : c ≠ '#') :
-    readRowImpl P tv.length sep ⟨lineOf sep (tv.map (·.1)) ++ tail, false, false⟩ =
+    readRowImpl P tv.length sep ⟨commentText cs ++ (lineOf sep (tv.map (·.1)) ++ tail), false, false⟩ =
       (.ok (tv.map (·.2)), afterLine tail) := by
-  have h1 := skipComments_data_line _ tail c l hline hc hNL ht
+  have hF : cs.length + 1 ≤ (commentText cs ++ (lineOf sep (tv.map (·.1)) ++ tail)).length + 1 := by
+    have := commentText_length cs
+    simp only [List.length_append]; omega
+  obtain ⟨k', hk⟩ := comments_skipped (lineOf sep (tv.map (·.1)) ++ tail) cs true _ hF hcs
+  have hpos : ∃ f, (commentText cs ++ (lineOf sep (tv.map (·.1)) ++ tail)).length + 1 - cs.length = f + 1 := by
+    have := commentText_length cs
+    exact ⟨(commentText cs ++ (lineOf sep (tv.map (·.1)) ++ tail)).length - cs.length, by
+      simp only [List.length_append] at *; omega⟩
+  obtain ⟨f, hf⟩ := hpos
+  have h1 : skipComments {} ⟨commentText cs ++ (lineOf sep (tv.map (·.1)) ++ tail), false, false⟩ =
+      (.ok (), shifted (lineOf sep (tv.map (·.1))) 0, streamOf (lineOf sep (tv.map (·.1))) tail) := by
+    rw [skipComments_eq]
+    have hr0 : ({} : Reader) = ⟨[], 0, true⟩ := rfl
+    rw [hr0, hk, hf]
+    exact afterTest_data f k' _ tail c l hline hc hNL ht
   have h2 := readFields_tokens P sep tv tail ht hlen hok (lineOf sep (tv.map (·.1))) 0 (by omega) hNL rfl
   have h3 := nextLine_done tail ht
   simp only [readRowImpl, h1, h2, h3]
   cases tail <;> rfl
 
-/-- The empty row (no comment before it) is read as zero fields and its newline consumed. -/
-theorem read_row_empty {V : Type} (P : List Char → Option (V × Nat)) (sep : Char) (t : List Char) :
-    readRowImpl P 0 sep ⟨'\n' :: t, false, false⟩ = (.ok [], ⟨t, false, false⟩) := by
-  simp [readRowImpl, skipComments, skipEarlyEvalsPeek, skipEarly, IStream.peek, IStream.good, endCh,
-    readFields, nextLine, nextLineThrowsEvalsGetc, nextLineThrows, IStream.get1, bufidxInit]
+/-- **The empty row** — also after any number of comment lines (the repaired `skip_comments`) — is
+    read as zero fields and its newline consumed. -/
+theorem read_row_empty {V : Type} (P : List Char → Option (V × Nat)) (sep : Char)
+    (cs : List (List Char)) (hcs : ∀ b ∈ cs, NoNL b) (t : List Char) :
+    readRowImpl P 0 sep ⟨commentText cs ++ '\n' :: t, false, false⟩ = (.ok [], ⟨t, false, false⟩) := by
+  have hF : cs.length + 1 ≤ (commentText cs ++ '\n' :: t).length + 1 := by
+    have := commentText_length cs
+    simp only [List.length_append]; omega
+  obtain ⟨k', hk⟩ := comments_skipped ('\n' :: t) cs true _ hF hcs
+  have hr0 : ({} : Reader) = ⟨[], 0, true⟩ := rfl
+  have h1 : skipComments {} ⟨commentText cs ++ '\n' :: t, false, false⟩ =
+      (.ok (), ⟨[], 0, k'⟩, ⟨'\n' :: t, false, false⟩) := by
+    rw [skipComments_eq, hr0, hk, afterTest_empty]
+  simp [readRowImpl, h1, readFields, nextLine, nextLineThrowsEvalsGetc, nextLineThrows, IStream.get1,
+    IStream.good, endCh]
+
+/-- … and a file that ends after its comment lines reads as an empty row (no error). -/
+theorem read_row_empty_eof {V : Type} (P : List Char → Option (V × Nat)) (sep : Char)
+    (cs : List (List Char)) (hcs : ∀ b ∈ cs, NoNL b) :
+    (readRowImpl P 0 sep ⟨commentText cs, false, false⟩).1 = .ok [] := by
+  have hF : cs.length + 1 ≤ (commentText cs ++ []).length + 1 := by
+    have := commentText_length cs
+    simp only [List.length_append]; omega
+  obtain ⟨k', hk⟩ := comments_skipped [] cs true _ hF hcs
+  have hpos : ∃ f, (commentText cs ++ []).length + 1 - cs.length = f + 1 := by
+    have := commentText_length cs
+    exact ⟨(commentText cs ++ []).length - cs.length, by simp only [List.length_append] at *; omega⟩
+  obtain ⟨f, hf⟩ := hpos
+  have hr0 : ({} : Reader) = ⟨[], 0, true⟩ := rfl
+  have h1 : skipComments {} ⟨commentText cs, false, false⟩ = (.ok (), ⟨[], 0, k'⟩, ⟨[], true, false⟩) := by
+    have := skipComments_eq {} ⟨commentText cs ++ [], false, false⟩
+    rw [hr0, hk, hf, afterTest_eof] at this
+    show skipComments ⟨[], 0, true⟩ _ = _
+    simpa using this
+  simp [readRowImpl, h1, readFields, nextLine, nextLineThrowsEvalsGetc, nextLineThrows]
 
 /-! ### Printers' framing, and print-then-read -/
 
@@ -136,7 +177,8 @@ theorem print_then_read {V : Type} (P : List Char → Option (V × Nat)) (sep : 
     readRowImpl P tv.length sep ⟨printCsvImpl tv.length 1 el [sep] [] ['\n'] ++ rest, false, false⟩ =
       (.ok (tv.map (·.2)), ⟨rest, false, false⟩) := by
   rw [printCsv_vector, hel, List.append_assoc]
-  exact read_row_tokens_partial P sep tv ('\n' :: rest) (Or.inr ⟨rest, rfl⟩) hlen hok hNL c l hline hc
+  have := read_row_tokens P sep [] (by simp) tv ('\n' :: rest) (Or.inr ⟨rest, rfl⟩) hlen hok hNL c l hline hc
+  simpa [commentText, afterLine] using this
 
 /-! ### Malformed rows are rejected; nothing past the end of the line is consumed -/
 
@@ -211,27 +253,65 @@ theorem too_many_rejected (L tail : List Char) (j : Nat) (hj : j ≤ min 64 L.le
     simp [nextLine, shifted, streamOf, nextLineThrowsEvalsGetc, nextLineThrows, hb0, h1, hcr, IStream.get1,
       IStream.good, endCh, hc]
 
-/-! ### Over-long token: the rejection claim is false for the code as written -/
+/-! ### Over-long token: rejected (repaired `read`: "number too long for buffer") -/
+
+/-- **Over-long token.**  At any chunk position, if the unread line starts with a token of more than
+    64 characters (longer than the window) that does not contain the separator, `read` throws —
+    whatever the number oracle makes of the first 64 characters (`hbound`: it cannot consume more
+    than it was given): conversion error, unexpected character, or "number too long" when the number
+    fills the window and the line continues.  The stream stays inside the line
+    (`streamOf_within_line`); no number is returned. -/
+theorem overlong_token_rejected {V : Type} (P : List Char → Option (V × Nat)) (sep : Char)
+    (L tail tok rest : List Char) (j : Nat) (hj : j ≤ min 64 L.length) (hL : NoNL L) (ht : TailOK tail)
+    (hd : L.drop j = tok ++ rest) (hlong : 65 ≤ tok.length) (hsep : sep ∉ tok)
+    (hbound : ∀ v ptr, readSingle P (tok.take 64) 0 64 = some (v, ptr) → ptr ≤ 64) :
+    ∃ e, Alpaqa.C17.read P (shifted L j) (streamOf L tail) sep =
+      (.error e, shifted (L.drop j) 0, streamOf (L.drop j) tail) := by
+  simp only [Alpaqa.C17.read, chunkPhase_shifted L tail j hj hL ht]
+  have hW : (L.drop j).take 64 = tok.take 64 := by
+    rw [hd, List.take_append_of_le_length (by omega)]
+  have hlen : 64 < (L.drop j).length := by rw [hd, List.length_append]; omega
+  have hmin : min 64 (L.drop j).length = 64 := by omega
+  have hsh : shifted (L.drop j) 0 = ⟨tok.take 64, 64, true⟩ := by
+    simp only [shifted, List.drop_zero, Nat.sub_zero, hW, hmin]
+    have : 64 < L.length - j := by simpa using hlen
+    simp [this]
+  rw [hsh]
+  cases hrs : readSingle P (tok.take 64) 0 64 with
+  | none => exact ⟨.conv, by simp [readParse, readBufend, readSingleBegin, hrs]⟩
+  | some vp =>
+    obtain ⟨v, ptr⟩ := vp
+    have hb := hbound v ptr hrs
+    by_cases h64 : ptr = 64
+    · subst h64
+      exact ⟨.long, by simp [readParse, readBufend, readSingleBegin, hrs, readSepBad, readLong]⟩
+    · have hlt : ptr < (tok.take 64).length := by rw [List.length_take]; omega
+      have hne : (tok.take 64)[ptr]?.getD ' ' ≠ sep := by
+        rw [List.getElem?_eq_getElem hlt]
+        simp only [Option.getD_some]
+        intro h
+        exact hsep (h ▸ List.mem_of_mem_take (List.getElem_mem hlt))
+      exact ⟨.sep, by simp [readParse, readBufend, readSingleBegin, hrs, readSepBad, h64, hne]⟩
 
 /-- toy oracle with the `from_chars` contract on unsigned decimal integers -/
 def digitsP (l : List Char) : Option (Nat × Nat) :=
   let ds := l.takeWhile Char.isDigit
   if ds.isEmpty then none else some (ds.foldl (fun a c => a * 10 + (c.toNat - 48)) 0, ds.length)
 
-/-- **`malformed_rejected` fails for over-long tokens** (DESIGN §7-B, finding
-    `csv-overlong-token-split`): a single 65-digit token — longer than the 64-byte window — is not
-    rejected; `read_row_std_vector` returns *two* numbers (the first 64 digits, and the last digit). -/
-theorem overlong_token_not_rejected :
-    (readRowStdVector digitsP ',' ⟨List.replicate 64 '1' ++ ['2', '\n'], false, false⟩).1.toOption =
-      some [1111111111111111111111111111111111111111111111111111111111111111, 2] := by
+/-- the former silent split (DESIGN §7-B): a single 65-digit token is now an error for both readers,
+    and the stream is left inside that line (the next line `7` is untouched) -/
+example :
+    readRowStdVector digitsP ',' ⟨List.replicate 64 '1' ++ ['2', '\n', '7'], false, false⟩ =
+      (.error .long, ⟨['2', '\n', '7'], false, false⟩) := by
   decide +kernel
-
-/-- … and `read_row` with n = 2 accepts the one-token line as two fields. -/
-theorem overlong_token_two_fields :
-    (readRowImpl digitsP 2 ',' ⟨List.replicate 64 '1' ++ ['2', '\n'], false, false⟩).1.toOption =
-      some [1111111111111111111111111111111111111111111111111111111111111111, 2] := by
+example :
+    (readRowImpl digitsP 2 ',' ⟨List.replicate 64 '1' ++ ['2', '\n', '7'], false, false⟩).1 = .error .long := by
   decide +kernel
-
+/-- a 64-character token that ends the line still fits the window and is accepted -/
+example :
+    (readRowImpl digitsP 2 ',' ⟨['5', ','] ++ List.replicate 64 '1' ++ ['\n', '7'], false, false⟩) =
+      (.ok [5, 1111111111111111111111111111111111111111111111111111111111111111], ⟨['7'], false, false⟩) := by
+  decide +kernel
 
 /-! ### Non-vacuity: the hypotheses are satisfiable, the conclusions are not trivially true -/
 
@@ -241,7 +321,7 @@ example : TokOK digitsP ',' ['1', '2'] 12 := by
   rcases h with rfl | ⟨t, rfl⟩ <;>
     simp [readSingle, digitsP, singleSkipPlus, singleFails, Char.isDigit]
 
-/-- `read_row_tokens_partial` instantiated: two tokens, any continuation of the file -/
+/-- `read_row_tokens` instantiated: two tokens, any continuation of the file -/
 example (t : List Char) :
     readRowImpl digitsP 2 ',' ⟨['1', '2', ',', '7'] ++ '\n' :: t, false, false⟩ = (.ok [12, 7], ⟨t, false, false⟩) := by
   have hok : ∀ p ∈ [((['1', '2'] : List Char), 12), (['7'], 7)], TokOK digitsP ',' p.1 p.2 := by
@@ -249,16 +329,24 @@ example (t : List Char) :
     simp at hp
     rcases hp with rfl | rfl <;> intro rest h <;> rcases h with rfl | ⟨t, rfl⟩ <;>
       simp [readSingle, digitsP, singleSkipPlus, singleFails, Char.isDigit]
-  have := read_row_tokens_partial digitsP ',' [(['1', '2'], 12), (['7'], 7)] ('\n' :: t) (Or.inr ⟨t, rfl⟩)
+  have := read_row_tokens digitsP ',' [] (by simp) [(['1', '2'], 12), (['7'], 7)] ('\n' :: t) (Or.inr ⟨t, rfl⟩)
     (by intro p hp; simp at hp; rcases hp with rfl | rfl <;> simp) hok
     (by intro c hc; simp [lineOf] at hc; rcases hc with rfl | rfl | rfl | rfl <;> decide)
     '1' ['2', ',', '7'] rfl (by decide)
-  simpa [lineOf, afterLine] using this
+  simpa [lineOf, afterLine, commentText] using this
 
 /-- a 99-character row (50 one-digit fields): tokens and separators straddle the window boundary -/
 example :
     (readRowImpl digitsP 50 ';' ⟨(List.replicate 49 ['7', ';']).flatten ++ ['7', '\n', '5'], false, false⟩) =
       (.ok (List.replicate 50 7), ⟨['5'], false, false⟩) := by
+  decide +kernel
+
+/-- comment lines of 1, 64, 65 and 130 characters, then an empty row, then a data row -/
+example :
+    let cmt (n : Nat) : List Char := '#' :: List.replicate n 'x' ++ ['\n']
+    let text := cmt 0 ++ cmt 63 ++ cmt 64 ++ cmt 129 ++ ['\n', '4', ',', '2', '\n']
+    let r1 := readRowImpl digitsP 0 ',' ⟨text, false, false⟩
+    r1.1 = .ok [] ∧ readRowImpl digitsP 2 ',' r1.2 = (.ok [4, 2], ⟨[], false, false⟩) := by
   decide +kernel
 
 /-- malformed: wrong separator in the middle of a 99-character row is rejected, not returned -/
